@@ -126,6 +126,10 @@ fn oracle(run: &Run) -> Vec<String> {
                 reasons.push(format!("{:?}", Some("raced".to_string())));
                 reasons.push(format!("{:?}", Some("Drained".to_string())));
             }
+            Closer::DrainThenStop => {
+                reasons.push(format!("{:?}", Some("after-drain".to_string())));
+                reasons.push(format!("{:?}", Some("Drained".to_string())));
+            }
         }
         if sc.prog == P::SelfStop {
             reasons.push("None".to_string());
@@ -162,6 +166,7 @@ fn base(kind: Kind, variant: Variant, site: Site, prog: P, closer: Closer) -> Sc
         pg_event: false,
         busy_sup: false,
         sup_drains: false,
+        stale_unlink: false,
     }
 }
 
@@ -199,6 +204,12 @@ fn scenarios(thorough: bool) -> Vec<Sc> {
         // a stopper, a drainer and a killer at once: still exactly one terminal event, and a consistent one
         v.push(base(kind, Variant::Linked, Site::Handle, P::Awaits, Closer::StopDrainKill));
         v.push(base(kind, Variant::Linked, Site::PostStop, P::Awaits, Closer::StopDrainKill));
+        // a stale unlink (from an actor that is no longer the supervisor) changes nothing
+        for (prog, closer) in [(P::Err, Closer::None), (P::Awaits, Closer::Stop(Some("because"))), (P::Awaits, Closer::Kill)] {
+            let mut s = base(kind, Variant::Linked, Site::Handle, prog, closer);
+            s.stale_unlink = true;
+            v.push(s);
+        }
         // a supervisor that is draining its backlog is alive: it must still be told
         for (site, prog, closer) in [
             (Site::Handle, P::Err, Closer::None),
